@@ -1004,6 +1004,39 @@ func ruleDecodeLoopLeavesOnError(c *core.Ctx) {
 // the same Environment (their namespaces are flattened into it); a pass whose traversal starts at a part of it —
 // the top-level namespace, the first namespace — leaves the rule it implements unchecked for every imported package,
 // and generation then proceeds on a model that should have been rejected.
+// fullIndexLoop: `at` lies in the body of `for i := 0; i < len(S); i++` or `for i := range S` with i the given
+// variable and S the given expression (compared as text).
+func fullIndexLoop(info *types.Info, body *ast.BlockStmt, iv types.Object, S ast.Expr, at ast.Node) bool {
+	want := types.ExprString(S)
+	found := false
+	ast.Inspect(body, func(n ast.Node) bool {
+		switch l := n.(type) {
+		case *ast.RangeStmt:
+			if l.Body.Pos() <= at.Pos() && at.End() <= l.Body.End() && identObj(info, l.Key) == iv && types.ExprString(l.X) == want {
+				found = true
+			}
+		case *ast.ForStmt:
+			if !(l.Body.Pos() <= at.Pos() && at.End() <= l.Body.End()) {
+				return true
+			}
+			init, ok1 := l.Init.(*ast.AssignStmt)
+			cond, ok2 := l.Cond.(*ast.BinaryExpr)
+			post, ok3 := l.Post.(*ast.IncDecStmt)
+			if !ok1 || !ok2 || !ok3 || len(init.Lhs) != 1 || len(init.Rhs) != 1 || post.Tok != token.INC || cond.Op != token.LSS {
+				return true
+			}
+			if v, isC := constInt(info, init.Rhs[0]); !isC || v != 0 || identObj(info, init.Lhs[0]) != iv || identObj(info, post.X) != iv || identObj(info, cond.X) != iv {
+				return true
+			}
+			if a, isLen := lenArg(info, cond.Y); isLen && types.ExprString(a) == want {
+				found = true
+			}
+		}
+		return true
+	})
+	return found
+}
+
 func rulePassesWalkWholeEnvironment(c *core.Ctx) {
 	const rule = "V7"
 	c.Rule(rule, "pkg/dsl: every function with the ValidationPass signature starts its traversal (Visit / VisitWithContext / Rewrite / RewriteWithContext, or a loop over Namespaces) at its *Environment parameter itself, never at a part of it", 12)
@@ -1066,6 +1099,14 @@ func rulePassesWalkWholeEnvironment(c *core.Ctx) {
 				root := ast.Unparen(ce.Args[0])
 				o := identObj(info, root)
 				key := d.Name.Name + "/" + nm + "(" + types.ExprString(root) + ")"
+				// env.Namespaces[i] inside a loop that runs i over every index of env.Namespaces
+				if ix, isIx := root.(*ast.IndexExpr); isIx {
+					if se, isSel := ast.Unparen(ix.X).(*ast.SelectorExpr); isSel && se.Sel.Name == "Namespaces" && identObj(info, se.X) == env {
+						if iv := identObj(info, ix.Index); iv != nil && fullIndexLoop(info, d.Body, iv, se, ce) {
+							o = env
+						}
+					}
+				}
 				c.Check(o != nil && (o == env || nsVars[o]), rule, key, ce.Pos(), "the traversal starts at the environment (or runs for every namespace of it)",
 					"the pass starts its traversal at `"+types.ExprString(root)+"`, a part of the environment: definitions of imported packages (and whatever else lies outside that part) are never checked by this pass")
 				return true
